@@ -32,13 +32,13 @@ ANCHORS = ['penman.constant:quote', 'penman.constant:evaluate', 'penman.constant
 PROBES = {'C18': 0, 'C08': 0, 'C07': 0}
 MIN_EVAL = {'quick': 50000, 'thorough': 1000000}
 REQUIRED_COUNTERS = ['quoted', 'evaluated', 'int', 'float', 'constant_error', 'str']
-NUM = re.compile(r'-?(0|[1-9]\d*)(\.\d+)?([eE][+-]?\d+)?')
-ATOM_ALPHA = ['0', '1', '-', '+', '.', 'e', 'E', '"', 'a', 'N', 'n', 't', '[', '{', ',', ']', '\\']
+NUM = re.compile(r'-?(0|[1-9][0-9]*)(\.[0-9]+)?([eE][+-]?[0-9]+)?')    # JSON number grammar: ASCII digits only
+ATOM_ALPHA = ['0', '1', '-', '+', '.', 'e', 'E', '"', 'a', 'N', 'n', 't', '[', '{', ',', ']', '\\', '}']
 QUOTE_ALPHA = ['a', '"', '\\', '\n', '\t', '\r', '\x00', '\u00e9', '\u2028', '(', '~', ':', '/', ' ',
                '\x0b', '\x85']
 EXTRA = ['true', 'false', 'null', 'NaN', 'Infinity', '-Infinity', '1e400', '-0', '01', '1.', '.5',
          '"\\u00e9"', '"\\x"', '[1]', '{"a":1}', '"a" "b"', '""', '"', '1e-400', '-1e400', 'True',
-         'None', '0x10', '1_0', '+1', '1e5', '1E+5', '-0.0', '"\\ud800"', 'nan', 'inf', '\u0661', '"a\nb"', '-', '--1', '1e', '1e+', '0.', '-.5', '00', '"\\""', '"\\"']
+         'None', '0x10', '1_0', '+1', '1e5', '1E+5', '-0.0', '"\\ud800"', 'nan', 'inf', '\u0661', '\uff11\uff12', '\u00b2', '1\u0662', '[]', '{}', '[[]]', '"a\nb"', '-', '--1', '1e', '1e+', '0.', '-.5', '00', '"\\""', '"\\"']
 BATCH = 4000
 NONTRIVIAL_CHARS = '"\\\n\t\r\x00\u2028\x0b\x85'
 
@@ -191,7 +191,7 @@ def oracle(ctx, kind, p):
                 check_atom(ctx, a)
             ctx.enumerated(nontrivial=True)
         for x in [None, 0, 1, -1, 1.5, -0.0, 0.0, 1e300, 10 ** 30, True, 1.0, float('inf'), 7, 7.0, 1000.0, 1000,
-                  False, 0, 2.0, 2, -3, -3.0]:
+                  False, 0, 2.0, 2, -3, -3.0, float('nan'), float('-inf')]:
             ctx.current = ['quote', {'x': repr(x)}]
             check_quote(ctx, x)
             ctx.enumerated(nontrivial=True)
